@@ -51,7 +51,13 @@ def generate(prop, seed, tier):
         G.add_closure_nt(spec, g, 'unit' if menu == 'unit' else 'small')
     if g.random() < 0.3:
         G.constant_factors(spec, g)
+    if g.random() < 0.2:
+        G.add_neq_terminal(spec, g, 'unit' if menu == 'unit' else 'small')
     method = g.choice(['fixed-point', 'fixed-point', 'newton', 'newton', 'linear'])
+    if sem in ('real', 'log') and g.random() < 0.08:
+        # several independent recursive components, each solved by its own run of the iterative method
+        spec = G.multi_scc_spec(g)
+        method = g.choice(['fixed-point', 'fixed-point', 'newton'])
     if g.random() < 0.12:
         # one linear SCC of 3-5 mutually recursive nonterminals (ring + chords): block elimination with fill-in
         spec = G.ring_chord_spec(g, 'unit' if menu == 'unit' else 'small')
@@ -61,10 +67,20 @@ def generate(prop, seed, tier):
             'env': {'alloc': {'mode': 'order', 'seed': seed}, 'axhash': seed,
                     'linalg_fail': g.choice([None, None, None, ['all'], [1], [3]]) if sem == 'real' else None,
                     'block_bytes': g.choice([None, None, 4096, 64, 8]), 'reduce_skip': g.random() < 0.2, 'dtype': 'float64'},
-            'pres_seed': g.randrange(1 << 30)}
+            'pres_seed': g.randrange(1 << 30),
+            # history on the same FGG object: an earlier query under doubled weights (then halved in place), and/or the same
+            # query repeated -- the answer and the warning must not depend on what the object was asked before
+            'hist': {'prequery': g.choice([None, None, None, 'fixed-point', 'fixed-point', 'newton']),
+                     'repeat': g.random() < 0.3}}
 
 
 def reducers(case):
+    h = case.get('hist') or {}
+    for k, v in (('prequery', None), ('repeat', False)):
+        if h.get(k):
+            c = copy.deepcopy(case)
+            c['hist'][k] = v
+            yield c
     for k, v in (('linalg_fail', None), ('block_bytes', None), ('reduce_skip', False)):
         if case['env'].get(k):
             c = copy.deepcopy(case)
@@ -185,158 +201,196 @@ def execute(case):
             pres = build.random_presentation(spec, Stream(case['pres_seed'], 'pres'), allow_rename=False, allow_domperm=False, via=('api',))
             B = build.build(spec, pres, interp=True, weights_transform=lift(sem), dtype=dtype)
             name_of = {B.labels[n]: n for n in spec['nts']}
-            events = []     # ('scc', labels, method) | ('F', x_in dict, y_out dict)
-            origF, origA = SP.F, SP.SumProduct.apply_to_patterned_tensors
+            hist = case.get('hist') or {}
+            plain_weights = not any(t.get('pattern') is not None for t in spec['terms'].values())
 
-            def monF(fgg, x, inputs, semiring):
-                y = origF(fgg, x, inputs, semiring)
-                labels = list(x.shapes[0])
-                xin = {}
-                for el in B.labels.values():
-                    if el.is_nonterminal:
-                        if el in labels:
-                            xin[name_of[el]] = x[el].to_dense().clone()
-                        elif el in inputs:
-                            xin[name_of[el]] = inputs[el].to_dense().clone()
-                yout = {name_of[el]: y[el].to_dense().clone() for el in labels}
-                events.append(('F', [name_of[el] for el in labels], xin, yout))
-                return y
+            def scale_weights(up):
+                # in-place change of the caller's weight tensors (x2 / :2, exact in binary; log carriers shift by log 2)
+                import math as _m
+                for f in B.fgg.factors.values():
+                    ph = f.weights.physical
+                    if sem == 'real':
+                        ph.mul_(2.0) if up else ph.div_(2.0)
+                    elif sem in ('log', 'viterbi'):
+                        ph.add_(_m.log(2.0)) if up else ph.sub_(_m.log(2.0))
 
-            def monA(fgg, opts, in_labels, out_labels, *in_values):
-                events.append(('scc', [name_of[el] for el in out_labels], opts['method']))
-                return origA(fgg, opts, in_labels, out_labels, *in_values)
-            SP.F = monF
-            SP.SumProduct.apply_to_patterned_tensors = staticmethod(monA)
-            exc = None
-            try:
-                with recorded_warnings() as ws:
-                    try:
-                        res = F.sum_products(B.fgg, semiring=S, method=method, tol=tol, kmax=kmax)
-                    except Exception as ex:
-                        exc = ex
-            finally:
-                SP.F = origF
-                SP.SumProduct.apply_to_patterned_tensors = staticmethod(origA)
-            warns = [str(w.message) for w in ws]
-            n_maxiter = sum(1 for w in warns if 'maximum iteration' in w)
-            # ---- method=linear on a grammar that is not linearly recursive
-            if method == 'linear':
-                if nonlinear_rule is not None:
-                    c.inc('fault.must-fail-call.fired')
-                    if not isinstance(exc, ValueError):
-                        V('linear-must-raise', [sem, type(exc).__name__ if exc else 'returned'],
-                          f'method=linear on a grammar with rule {nonlinear_rule["lhs"]} -> {[e["label"] for e in nonlinear_rule["edges"]]} (two nonterminals of its own SCC): '
-                          f'{"returned a value" if exc is None else type(exc).__name__ + ": " + str(exc)}')
-                    counters = dict(c)
-                    raise StopIteration
-                if isinstance(exc, ValueError) and 'not linearly recursive' in str(exc):
-                    V('linear-spurious-error', [sem], f'linearly recursive grammar rejected: {exc}')
-            if exc is not None:
-                V('raised', feats + [type(exc).__name__, 'kmax=' + case['kmax_mode'] if kmax <= 2 else 'kmax>2'], f'sum_products raised {type(exc).__name__}: {exc}')
-            # ---- oracle 1: every F event refines the reference one-step operator
-            sccs_ev = []
-            cur = None
-            for ev in events:
-                if ev[0] == 'scc':
-                    cur = {'labels': ev[1], 'method': ev[2], 'F': []}
-                    sccs_ev.append(cur)
-                else:
-                    nF += 1
-                    xin = {n: to_ref(sem, t) for n, t in ev[2].items()}
-                    full = {n: xin.get(n, ref.sem.zero(ref.shape[n])) for n in spec['nts']}
-                    want = ref.F(full)
-                    for n in ev[1]:
-                        got = to_ref(sem, ev[3][n])
-                        w = want[n]
-                        if refsem == 'bool':
-                            ok = np.array_equal(got.astype(bool), w.astype(bool))
-                        else:
-                            ok = bool(np.all((got == w) | (np.abs(got - w) <= 1e-9 * np.maximum(1e-300, np.maximum(np.abs(got), np.abs(w))))))
-                        if not ok:
-                            V('step-refinement', feats, f'F event #{nF} for {n}: library {got.tolist()} reference {np.asarray(w).tolist()} at input {dict((k, v.tolist()) for k, v in xin.items())}')
-                    if cur is not None:
-                        cur['F'].append(ev)
-            c.inc('solver.F-events', nF)
-            c.inc('solver.scc-solves', len(sccs_ev))
-            # ---- oracle 2: no silent non-convergence
-            unmet = 0
-            for sc in sccs_ev:
-                fe = sc['F']
-                if sc['method'] == 'fixed-point' and fe:
-                    last_in = {n: fe[-1][2][n] for n in sc['labels']}
-                    last_out = fe[-1][3]
-                    d = max(dist(to_ref('real', last_in[n]) if sem != 'bool' else last_in[n].numpy(),
-                                 to_ref('real', last_out[n]) if sem != 'bool' else last_out[n].numpy()) for n in sc['labels'])
-                    # the solver compares in its own carrier (log values for Log/Viterbi)
-                    if d > (0 if sem == 'bool' else tol):
-                        unmet += 1
-                        c.inc('fault.budget-cut.fired')
-                elif sc['method'] == 'newton':
-                    if len(fe) >= kmax:
-                        # budget used up: was the criterion met at the last iteration?
-                        if fe:
-                            x0 = {n: fe[-1][2][n] for n in sc['labels']}
-                            f0 = {n: torch.maximum(fe[-1][3][n], x0[n]) if sem != 'bool' else (fe[-1][3][n] | x0[n]) for n in sc['labels']}
-                            d = max(dist(x0[n].numpy() if sem == 'bool' else x0[n].to(torch.float64).numpy(),
-                                         f0[n].numpy() if sem == 'bool' else f0[n].to(torch.float64).numpy()) for n in sc['labels'])
-                            met = d <= (0 if sem == 'bool' else tol)
-                        else:
-                            met = False      # kmax = 0: not a single iteration was made
-                        if not met:
+            if hist.get('prequery') and plain_weights:
+                # an earlier query on the same object under larger weights; its outcome is not judged here
+                scale_weights(True)
+                try:
+                    with recorded_warnings():
+                        F.sum_products(B.fgg, semiring=S, method=hist['prequery'] if (hist['prequery'] != 'linear') else 'newton', tol=1e-3, kmax=25)
+                except Exception:
+                    pass
+                scale_weights(False)
+                c.inc('hist.prequery-then-inplace-weight-change')
+
+            def run_query(tag):
+                nonlocal nF, counters
+                feats = [sem, method] + ([tag] if tag else [])
+                events = []     # ('scc', labels, method) | ('F', x_in dict, y_out dict)
+                origF, origA = SP.F, SP.SumProduct.apply_to_patterned_tensors
+
+                def monF(fgg, x, inputs, semiring):
+                    y = origF(fgg, x, inputs, semiring)
+                    labels = list(x.shapes[0])
+                    xin = {}
+                    for el in B.labels.values():
+                        if el.is_nonterminal:
+                            if el in labels:
+                                xin[name_of[el]] = x[el].to_dense().clone()
+                            elif el in inputs:
+                                xin[name_of[el]] = inputs[el].to_dense().clone()
+                    yout = {name_of[el]: y[el].to_dense().clone() for el in labels}
+                    events.append(('F', [name_of[el] for el in labels], xin, yout))
+                    return y
+
+                def monA(fgg, opts, in_labels, out_labels, *in_values):
+                    events.append(('scc', [name_of[el] for el in out_labels], opts['method']))
+                    return origA(fgg, opts, in_labels, out_labels, *in_values)
+                SP.F = monF
+                SP.SumProduct.apply_to_patterned_tensors = staticmethod(monA)
+                exc = None
+                try:
+                    with recorded_warnings() as ws:
+                        try:
+                            res = F.sum_products(B.fgg, semiring=S, method=method, tol=tol, kmax=kmax)
+                        except Exception as ex:
+                            exc = ex
+                finally:
+                    SP.F = origF
+                    SP.SumProduct.apply_to_patterned_tensors = staticmethod(origA)
+                warns = [str(w.message) for w in ws]
+                n_maxiter = sum(1 for w in warns if 'maximum iteration' in w)
+                # ---- method=linear on a grammar that is not linearly recursive
+                if method == 'linear':
+                    if nonlinear_rule is not None:
+                        c.inc('fault.must-fail-call.fired')
+                        if not isinstance(exc, ValueError):
+                            V('linear-must-raise', [sem, type(exc).__name__ if exc else 'returned'],
+                              f'method=linear on a grammar with rule {nonlinear_rule["lhs"]} -> {[e["label"] for e in nonlinear_rule["edges"]]} (two nonterminals of its own SCC): '
+                              f'{"returned a value" if exc is None else type(exc).__name__ + ": " + str(exc)}')
+                        counters = dict(c)
+                        raise StopIteration
+                    if isinstance(exc, ValueError) and 'not linearly recursive' in str(exc):
+                        V('linear-spurious-error', [sem], f'linearly recursive grammar rejected: {exc}')
+                if exc is not None:
+                    V('raised', feats + [type(exc).__name__, 'kmax=' + case['kmax_mode'] if kmax <= 2 else 'kmax>2'], f'sum_products raised {type(exc).__name__}: {exc}')
+                # ---- oracle 1: every F event refines the reference one-step operator
+                sccs_ev = []
+                cur = None
+                for ev in events:
+                    if ev[0] == 'scc':
+                        cur = {'labels': ev[1], 'method': ev[2], 'F': []}
+                        sccs_ev.append(cur)
+                    else:
+                        nF += 1
+                        xin = {n: to_ref(sem, t) for n, t in ev[2].items()}
+                        full = {n: xin.get(n, ref.sem.zero(ref.shape[n])) for n in spec['nts']}
+                        want = ref.F(full)
+                        for n in ev[1]:
+                            got = to_ref(sem, ev[3][n])
+                            w = want[n]
+                            if refsem == 'bool':
+                                ok = np.array_equal(got.astype(bool), w.astype(bool))
+                            else:
+                                ok = bool(np.all((got == w) | (np.abs(got - w) <= 1e-9 * np.maximum(1e-300, np.maximum(np.abs(got), np.abs(w))))))
+                            if not ok:
+                                V('step-refinement', feats, f'F event #{nF} for {n}: library {got.tolist()} reference {np.asarray(w).tolist()} at input {dict((k, v.tolist()) for k, v in xin.items())}')
+                        if cur is not None:
+                            cur['F'].append(ev)
+                c.inc('solver.F-events', nF)
+                c.inc('solver.scc-solves', len(sccs_ev))
+                # ---- oracle 2: no silent non-convergence
+                unmet = 0
+                for sc in sccs_ev:
+                    fe = sc['F']
+                    if sc['method'] == 'fixed-point' and fe:
+                        last_in = {n: fe[-1][2][n] for n in sc['labels']}
+                        last_out = fe[-1][3]
+                        d = max(dist(to_ref('real', last_in[n]) if sem != 'bool' else last_in[n].numpy(),
+                                     to_ref('real', last_out[n]) if sem != 'bool' else last_out[n].numpy()) for n in sc['labels'])
+                        # the solver compares in its own carrier (log values for Log/Viterbi)
+                        if d > (0 if sem == 'bool' else tol):
                             unmet += 1
                             c.inc('fault.budget-cut.fired')
-            if unmet > n_maxiter:
-                V('silent-nonconvergence', feats + ['kmax=' + case['kmax_mode']],
-                  f'{unmet} SCC iteration(s) ended with the stopping criterion unmet but {n_maxiter} warning(s) were issued (kmax={kmax}, tol={tol})')
-            # ---- oracle 3: value
-            for nt in spec['nts']:
-                el = B.labels[nt]
-                if el not in res:
-                    V('value', feats + ['missing'], f'no value for {nt}')
-            got = {nt: to_ref(sem, res[B.labels[nt]].to_dense()) for nt in spec['nts']}
-            scale = {nt: np.maximum(1.0, np.abs(np.where(np.isfinite(xstar[nt]), xstar[nt], 0.0))) if refsem != 'bool' else None for nt in spec['nts']}
-            if refsem == 'bool':
-                if n_maxiter == 0:
+                    elif sc['method'] == 'newton':
+                        if len(fe) >= kmax:
+                            # budget used up: was the criterion met at the last iteration?
+                            if fe:
+                                x0 = {n: fe[-1][2][n] for n in sc['labels']}
+                                f0 = {n: torch.maximum(fe[-1][3][n], x0[n]) if sem != 'bool' else (fe[-1][3][n] | x0[n]) for n in sc['labels']}
+                                d = max(dist(x0[n].numpy() if sem == 'bool' else x0[n].to(torch.float64).numpy(),
+                                             f0[n].numpy() if sem == 'bool' else f0[n].to(torch.float64).numpy()) for n in sc['labels'])
+                                met = d <= (0 if sem == 'bool' else tol)
+                            else:
+                                met = False      # kmax = 0: not a single iteration was made
+                            if not met:
+                                unmet += 1
+                                c.inc('fault.budget-cut.fired')
+                # the budget the caller gave applies to every run of the iterative method (one per component): a warning only
+                # excuses the value if some component really used (nearly) kmax iterations; otherwise the value is judged
+                exhausted = any(len(sc['F']) >= kmax - 1 for sc in sccs_ev if sc['method'] in ('fixed-point', 'newton'))
+                judge = (n_maxiter == 0) or not exhausted
+                if n_maxiter and not exhausted:
+                    c.inc('probe.warning-without-exhausted-budget')
+                if unmet > n_maxiter:
+                    V('silent-nonconvergence', feats + ['kmax=' + case['kmax_mode']],
+                      f'{unmet} SCC iteration(s) ended with the stopping criterion unmet but {n_maxiter} warning(s) were issued (kmax={kmax}, tol={tol})')
+                # ---- oracle 3: value
+                for nt in spec['nts']:
+                    el = B.labels[nt]
+                    if el not in res:
+                        V('value', feats + ['missing'], f'no value for {nt}')
+                got = {nt: to_ref(sem, res[B.labels[nt]].to_dense()) for nt in spec['nts']}
+                scale = {nt: np.maximum(1.0, np.abs(np.where(np.isfinite(xstar[nt]), xstar[nt], 0.0))) if refsem != 'bool' else None for nt in spec['nts']}
+                if refsem == 'bool':
+                    if judge:
+                        for nt in spec['nts']:
+                            if not np.array_equal(got[nt].astype(bool), xstar[nt].astype(bool)):
+                                V('value', feats + ['bool'], f'{nt}: {got[nt].tolist()} expected {xstar[nt].tolist()}')
+                elif refsem == 'viterbi':
                     for nt in spec['nts']:
-                        if not np.array_equal(got[nt].astype(bool), xstar[nt].astype(bool)):
-                            V('value', feats + ['bool'], f'{nt}: {got[nt].tolist()} expected {xstar[nt].tolist()}')
-            elif refsem == 'viterbi':
-                for nt in spec['nts']:
-                    g_, w_ = got[nt], xstar[nt]
-                    if not np.all((g_ <= w_ + 1e-9 * scale[nt]) | (g_ == w_)):
-                        V('value', feats + ['above-lfp'], f'{nt}: {g_.tolist()} exceeds the least fixed point {w_.tolist()}')
-                    if n_maxiter == 0 and not np.all((g_ == w_) | (np.abs(g_ - w_) <= 1e-9 * scale[nt])):
-                        V('value', feats + ['viterbi'], f'{nt}: {g_.tolist()} expected {w_.tolist()} (no warning issued)')
-            else:
-                for nt in spec['nts']:
-                    if not np.all(got[nt] <= xstar[nt] + 1e-7 * scale[nt] + 1e-12):
-                        V('value', feats + ['above-lfp'], f'{nt}: {got[nt].tolist()} exceeds the least fixed point {xstar[nt].tolist()}')
-                if n_maxiter == 0:
-                    if method == 'linear':
-                        bnd, rho = jacobian_bound(ref, xstar, None, {n: np.zeros(ref.shape[n]) for n in spec['nts']})
-                        if bnd is not None:
-                            for nt in spec['nts']:
-                                if not np.all(np.abs(got[nt] - xstar[nt]) <= 1e-7 * scale[nt] / max(1e-3, 1 - rho)):
-                                    V('value', feats + ['linear'], f'{nt}: {got[nt].tolist()} expected {xstar[nt].tolist()}')
-                            c.inc('value.closeness-asserted')
-                    else:
-                        if sem == 'log':
-                            r_vec = {n: (np.exp(tol) - 1.0) * np.maximum(xstar[n], 0.0) for n in spec['nts']}
+                        g_, w_ = got[nt], xstar[nt]
+                        if not np.all((g_ <= w_ + 1e-9 * scale[nt]) | (g_ == w_)):
+                            V('value', feats + ['above-lfp'], f'{nt}: {g_.tolist()} exceeds the least fixed point {w_.tolist()}')
+                        if judge and not np.all((g_ == w_) | (np.abs(g_ - w_) <= 1e-9 * scale[nt])):
+                            V('value', feats + ['viterbi'], f'{nt}: {g_.tolist()} expected {w_.tolist()} (no warning issued)')
+                else:
+                    for nt in spec['nts']:
+                        if not np.all(got[nt] <= xstar[nt] + 1e-7 * scale[nt] + 1e-12):
+                            V('value', feats + ['above-lfp'], f'{nt}: {got[nt].tolist()} exceeds the least fixed point {xstar[nt].tolist()}')
+                    if judge:
+                        if method == 'linear':
+                            bnd, rho = jacobian_bound(ref, xstar, None, {n: np.zeros(ref.shape[n]) for n in spec['nts']})
+                            if bnd is not None:
+                                for nt in spec['nts']:
+                                    if not np.all(np.abs(got[nt] - xstar[nt]) <= 1e-7 * scale[nt] / max(1e-3, 1 - rho)):
+                                        V('value', feats + ['linear'], f'{nt}: {got[nt].tolist()} expected {xstar[nt].tolist()}')
+                                c.inc('value.closeness-asserted')
                         else:
-                            r_vec = {n: np.full(ref.shape[n], tol) for n in spec['nts']}
-                        bnd, rho = jacobian_bound(ref, xstar, None, r_vec)
-                        if bnd is not None:
-                            for nt in spec['nts']:
-                                allow = 1.5 * bnd[nt] + 1e-7 * scale[nt]
-                                if not np.all(xstar[nt] - got[nt] <= allow):
-                                    V('value', feats + ['error-exceeds-tol-bound', 'tol=%g' % tol],
-                                      f'{nt}: returned {got[nt].tolist()}, least fixed point {xstar[nt].tolist()}, allowed error {allow.tolist()} (tol={tol}, rho(J*)={rho:.3f})')
-                            c.inc('value.closeness-asserted')
-                        else:
-                            c.inc('value.near-critical-skipped')
-            if n_maxiter:
-                c.inc('warnings.maximum-iteration', n_maxiter)
-            log.add('res', feats, case['kmax_mode'], nF, n_maxiter, {nt: np.round(np.where(np.isfinite(got[nt].astype(float)), got[nt].astype(float), -1.0), 6).tolist() for nt in spec['nts']})
+                            if sem == 'log':
+                                r_vec = {n: (np.exp(tol) - 1.0) * np.maximum(xstar[n], 0.0) for n in spec['nts']}
+                            else:
+                                r_vec = {n: np.full(ref.shape[n], tol) for n in spec['nts']}
+                            bnd, rho = jacobian_bound(ref, xstar, None, r_vec)
+                            if bnd is not None:
+                                for nt in spec['nts']:
+                                    allow = 1.5 * bnd[nt] + 1e-7 * scale[nt]
+                                    if not np.all(xstar[nt] - got[nt] <= allow):
+                                        V('value', feats + ['error-exceeds-tol-bound', 'tol=%g' % tol],
+                                          f'{nt}: returned {got[nt].tolist()}, least fixed point {xstar[nt].tolist()}, allowed error {allow.tolist()} (tol={tol}, rho(J*)={rho:.3f})')
+                                c.inc('value.closeness-asserted')
+                            else:
+                                c.inc('value.near-critical-skipped')
+                if n_maxiter:
+                    c.inc('warnings.maximum-iteration', n_maxiter)
+                log.add('res', feats, case['kmax_mode'], nF, n_maxiter, {nt: np.round(np.where(np.isfinite(got[nt].astype(float)), got[nt].astype(float), -1.0), 6).tolist() for nt in spec['nts']})
+
+            run_query('')
+            if hist.get('repeat'):
+                c.inc('hist.repeated-query')
+                run_query('repeat')
             counters = dict(c)
     except StopIteration:
         pass
